@@ -9,6 +9,35 @@ import os
 import re
 
 
+def slurm_minutes(spec):
+    """What the scheduler understands by a --time value (sbatch(1): "minutes", "minutes:seconds", "hours:minutes:seconds",
+    "days-hours", "days-hours:minutes", "days-hours:minutes:seconds"), in minutes.  Independent of JADE's own parser."""
+    spec = str(spec).strip()
+    if "-" in spec:
+        d, rest = spec.split("-", 1)
+        f = [int(x) for x in rest.split(":")] + [0, 0]
+        return int(d) * 1440 + f[0] * 60 + f[1] + f[2] / 60.0
+    f = [int(x) for x in spec.split(":")]
+    if len(f) == 1:
+        return float(f[0])
+    if len(f) == 2:
+        return f[0] + f[1] / 60.0
+    return f[0] * 60 + f[1] + f[2] / 60.0
+
+
+WALLTIME_SPELLINGS = {
+    # canonical and equivalent spellings of "m minutes" that JADE's parser (h:m:s somewhere in the string) also understands
+    "hms": lambda m: f"0:{m:02d}:00",
+    "hhms": lambda m: f"00:{m:02d}:00",
+    "dhms": lambda m: f"0-00:{m:02d}:00",
+    "h_m_s": lambda m: f"0:{m}:0",
+    # spellings the scheduler accepts and JADE (unchanged) refuses up front
+    "ms": lambda m: f"{m}:00",
+    "m": lambda m: f"{m}",
+}
+REFUSED_SPELLINGS = ("ms", "m")
+
+
 def read_batch(root, script):
     """script: path of the sbatch script (relative to root or absolute)."""
     p = script if os.path.isabs(script) else os.path.join(root, script)
@@ -79,9 +108,9 @@ def check_batch(scen_jobs, groups, names, cfg, txt, run, script, out_dir, finish
     g = groups[gset.pop()]
     if g["time_based"]:
         tot = sum(scen_jobs[n]["est"] for n in names)
-        cap = g["wall_min"] * g["procs"]
+        cap = slurm_minutes(g["walltime"]) * g["procs"]  # the limit the scheduler will enforce for the --time that was written
         if tot > cap:
-            viol("time-limit", f"{script}: estimated minutes {tot} > walltime x processes {cap} ({names})")
+            viol("time-limit", f"{script}: estimated minutes {tot} > walltime ({g['walltime']}) x processes = {cap} ({names})")
     else:
         if len(names) > g["batch"]:
             viol("size-limit", f"{script}: {len(names)} jobs > per-node batch size {g['batch']} ({names})")
